@@ -451,6 +451,7 @@ RENDER_EXTRA = [
     "insert into t (a, b) values (1, 'x'), (2, null)", "update t set a = 1, b = 'q' where c > 2",
     "delete from t where a = 1", "create table t (id serial, a int, b text, c float default 1)",
     "create table a.t (id serial primary key, x varchar(10))", "drop table if exists a.t, b",
+    "create table t2 (id serial, name text)", "create table int.t3 (k serial, v int, w varchar(5))",
     "select cast(a as float), cast(b as varchar(10)) from t", "select case when a > 1 then 'x' else 'y' end as r from t",
     "select count(distinct a), max(b) from t group by c having max(b) > 1 order by 1 desc",
     "select * from t1 union select * from t2", "select * from t1 union all select * from t2 intersect select * from t3",
@@ -518,6 +519,24 @@ for i, e_ in enumerate(EXPRS):
 render_ops.extend(expr_ops)
 for rd in ('mysql', 'postgresql', 'sqlite', 'mssql', 'oracle', 'postgres', 'Snowflake'):
     fam('render_exprs_' + rd, [o for o in expr_ops if o['rd'] == rd])
+# function calls as operands: how SQLAlchemy spells an operator depends on the types of its operands ('+' between strings is
+# concatenation, '/' between integers is integer division), and the type of a function call comes from SQLAlchemy's registry
+# of known functions -- process-wide data that the renderer's modules may add to
+FUNCS = ["length(a)", "ifnull(a, b)", "ceil(a)", "lower(a)", "upper(a)", "char_length(a)", "round(a, 2)", "abs(a)", "floor(a)", "nullif(a, b)",
+         "concat(a, b)", "now()", "coalesce(a, b)", "count(a)", "sum(a)", "avg(a)", "max(a)", "len(a)", "isnull(a, b)", "nvl(a, b)", "trim(a)",
+         "replace(a, 'x', 'y')", "date_format(a, '%Y')", "my_udf(a)", "json_extract(a, '$.k')", "random()", "mod(a, 2)", "power(a, 2)", "sqrt(a)", "left(a, 2)"]
+FUNC_CTX = ["%s + '1'", "%s / 2", "%s || 'x'"]
+func_ops = []
+for i, f_ in enumerate(FUNCS):
+    for j, cx_ in enumerate(FUNC_CTX):
+        sql_ = 'select %s as r from t' % (cx_ % f_)
+        if not outcome('mindsdb', sql_).startswith('ok'):
+            continue
+        for rd in ('mysql', 'postgresql', 'sqlite', 'mssql', 'oracle'):
+            func_ops.append({'k': 'render', 'd': 'mindsdb', 'sql': sql_, 'rd': rd, 'fb': bool((i + j) % 2)})
+render_ops.extend(func_ops)
+for rd in ('mysql', 'postgresql', 'sqlite', 'mssql', 'oracle'):
+    fam('render_funcs_' + rd, [o for o in func_ops if o['rd'] == rd])
 # both forms of naming a dialect to the renderer: by name and by SQLAlchemy dialect class; statements whose text depends on
 # the per-name tweaks of the constructor (mysql float cast, mssql multi-row insert) next to ordinary ones
 FORMS_SQL = ["select cast(a as float) from t1", "insert into t (a, b) values (1, 'x'), (2, 'y')", "select a from t where b = 1 limit 2",
@@ -666,6 +685,30 @@ for sql_ in DEEP:
             deep_ops.append(op)
 fam('deep_inputs', deep_ops)
 
+# the same kind of input built by the caller instead of parsed (op field 'ast'): the parser's share of the work is gone, so these
+# are cheap enough for the quick tier.  Same rule: only what is far from the edge of the recursion limit.
+chain_ops = []
+for n_ in (40, 90, 260, 400):
+    for bop_ in ('and', 'or'):
+        for shape_ in ('plain', 'join', 'pred'):
+            name_ = 'chain_%s_%d_%s' % (bop_, n_, shape_)
+            cands_ = [{'k': 'plan', 'ast': name_, 'cat': cA}] if (n_ >= 260 and shape_ != 'plain') or (n_ == 40 and bop_ == 'or') else []
+            if shape_ == 'plain' and n_ <= 260:
+                cands_ += [{'k': 'render', 'd': 'mindsdb', 'ast': name_, 'rd': rd_, 'fb': True} for rd_ in (('mysql', 'postgresql') if n_ < 260 else ('mysql',))]
+            for op in cands_:
+                outs = []
+                for f_ in (0.7, 1.4):
+                    _sys.setrecursionlimit(int(_lim * f_))
+                    try:
+                        outs.append(O.run_op(op, O.Env(catalogs, 'op', 'op')))
+                    finally:
+                        _sys.setrecursionlimit(_lim)
+                if outs[0] == outs[1]:
+                    chain_ops.append(op)
+fam('built_chains', chain_ops + [P("select * from int.tab1 t1 where t1.a = 1", cA), P("select t1.a, m.p from int.tab1 t1 join mindsdb.pred m where t1.b = 2", cA),
+                                 P("select * from int.tab1 t1 join int2.tab2 t2 on t1.a = t2.a where t1.c = 3 or t2.d = 4", cA),
+                                 {'k': 'render', 'd': 'mindsdb', 'sql': "select a from t where b = 1 or c = 2", 'rd': 'mysql', 'fb': True}])
+
 # DDL on one reused renderer: the same table name with different column lists, created / dropped / created again
 DDL_EXTRA = ["create table t (a int, b text, primary key (a))", "create table t (a int, b text, primary key (x))", "create table t (a int primary key, b int default 1)",
              "create table t (a int, primary key (a, zz))"]
@@ -795,6 +838,48 @@ for op in pool:
         continue
     seen.add(k)
     pool2.append(op)
+
+# derived family: render ops whose rendering, on the tree as it is now, edits the tree the caller passed in.  A caller that keeps
+# a parsed statement and hands it to several threads shares exactly these writes; the family makes sure that every run has a
+# scenario in which two clients render one tree object at the same time (gen_sweep_base forces 'tree_share' for it).
+def _tree_dump(x, depth=0):
+    if depth > 60:
+        return '...'
+    if isinstance(x, (str, int, float, bool, type(None))):
+        return repr(x)
+    if isinstance(x, (list, tuple)):
+        return '[' + ','.join(_tree_dump(i, depth + 1) for i in x) + ']'
+    if isinstance(x, dict):
+        return '{' + ','.join(repr(k) + ':' + _tree_dump(v, depth + 1) for k, v in x.items()) + '}'
+    if hasattr(x, '__dict__'):
+        return type(x).__name__ + _tree_dump(vars(x), depth + 1)
+    return type(x).__name__
+
+
+def _edits_tree(op):
+    from mindsdb_sql import parse_sql
+    from mindsdb_sql.render.sqlalchemy_render import SqlalchemyRender
+    rd = op.get('rd')
+    if op.get('k') != 'render' or not op.get('sql') or not isinstance(rd, str) or rd.startswith('cls:') or op.get('wp'):
+        return False
+    try:
+        t = parse_sql(op['sql'], dialect=op['d'])
+        before = _tree_dump(t)
+    except BaseException:  # noqa
+        return False
+    try:
+        SqlalchemyRender(rd).get_string(t, with_failback=op.get('fb', True))
+    except BaseException:  # noqa
+        pass
+    return _tree_dump(t) != before
+
+
+import warnings  # noqa
+with warnings.catch_warnings():
+    warnings.simplefilter('ignore')
+    _et = [op for op in pool2 if _edits_tree(op)]
+if len(_et) >= 2:
+    families['render_edits_tree'] = _et
 
 # static hints per op (accepted/rejected class and number of LINE events in repo code), measured now: they only steer
 # generation (fault placement ranges, stratum grouping); every judgement uses the reference computed at check time
